@@ -34,11 +34,29 @@ pub fn tohex(b: &[u8]) -> String {
     }
 }
 
-/// Reads case lines from stdin, writes one result line per case to stdout.
+/// Wall-clock second at which the current case started (0 = between cases), for the watchdog.
+static CASE_STARTED: AtomicU64 = AtomicU64::new(0);
+
+fn now_s() -> u64 {
+    std::time::SystemTime::now().duration_since(std::time::UNIX_EPOCH).map(|d| d.as_secs()).unwrap_or(1)
+}
+
+/// Reads case lines from stdin, writes one result line per case to stdout.  A watchdog thread
+/// answers `HANG` for a case that runs longer than VERIF_CASE_WALL_S (default 300) seconds of real
+/// time and ends the process (exit code 86); the caller re-runs the remaining cases.
 pub fn for_each_case(mut f: impl FnMut(&[&str]) -> String) {
+    let limit: u64 = std::env::var("VERIF_CASE_WALL_S").ok().and_then(|v| v.parse().ok()).unwrap_or(300);
+    std::thread::spawn(move || loop {
+        std::thread::sleep(std::time::Duration::from_millis(500));
+        let st = CASE_STARTED.load(Ordering::SeqCst);
+        if st != 0 && now_s().saturating_sub(st) > limit {
+            let mut o = std::io::stdout().lock();
+            let _ = writeln!(o, "HANG wall>{limit}s");
+            let _ = o.flush();
+            std::process::exit(86);
+        }
+    });
     let stdin = std::io::stdin();
-    let stdout = std::io::stdout();
-    let mut out = std::io::BufWriter::new(stdout.lock());
     for line in stdin.lock().lines() {
         let line = line.unwrap();
         let line = line.trim();
@@ -46,10 +64,13 @@ pub fn for_each_case(mut f: impl FnMut(&[&str]) -> String) {
             continue;
         }
         let toks: Vec<&str> = line.split_ascii_whitespace().collect();
+        CASE_STARTED.store(now_s().max(1), Ordering::SeqCst);
         let r = f(&toks);
-        writeln!(out, "{r}").unwrap();
+        CASE_STARTED.store(0, Ordering::SeqCst);
+        let mut o = std::io::stdout().lock();
+        writeln!(o, "{r}").unwrap();
+        o.flush().unwrap();
     }
-    out.flush().unwrap();
 }
 
 pub fn catch<F: FnOnce() -> String>(f: F) -> String {
